@@ -449,6 +449,9 @@ func (g *Gen) unop(v *ssa.UnOp) {
 	case token.MUL:
 		if fa, ok := v.X.(*ssa.FieldAddr); ok {
 			for _, ff := range g.forbidFields {
+				if ff.WriteLock {
+					continue
+				}
 				st := deref(fa.X.Type())
 				if sts, ok := st.Underlying().(*types.Struct); ok && typeKey(st) == ff.Struct && sts.Field(fa.Field).Name() == ff.Field {
 					g.oblige("reads", g.srcOf(v.Pos(), "sel"), "not-"+ff.Field, []string{g.prop}, false, "false", v.Pos())
